@@ -70,7 +70,7 @@ func init() {
 		}{{"push", push.NewSocket}, {"xpush", xpush.NewSocket}} {
 			k := k
 			out = append(out, &vexplore.Scenario{Name: fmt.Sprintf("%s-hist-D%d", k.n, d+1), Mode: "hist", Reset: kit.ResetGlobals, Body: func() { pushHist(k.n, k.c, d+1) },
-				NeedCounters: []string{"push-delivered", "push-after-loss"}})
+				NeedCounters: []string{"push-delivered", "push-after-loss", "idle-newcomer-served"}})
 			out = append(out, &vexplore.Scenario{Name: k.n + "-sched-two-senders", Mode: "sched", Bound: b, Reset: kit.ResetGlobals, Body: func() { pushSched(k.c) }})
 			out = append(out, &vexplore.Scenario{Name: k.n + "-sched-send-vs-dispatcher-going-idle", Mode: "sched", Bound: b, Reset: kit.ResetGlobals, Body: func() { pushIdleRace(k.c) }})
 			out = append(out, &vexplore.Scenario{Name: k.n + "-sched-peer-leaves-during-send", Mode: "sched", Bound: b, Reset: kit.ResetGlobals, Body: func() { pushPeerLeaves(k.c) }})
@@ -536,6 +536,7 @@ func pushHist(name string, c ctor, depth int) {
 	var calls []*kit.Call
 	taken := 0
 	lost := false
+	var taker *vt.Pipe
 	check := func() {
 		seen := map[string]int{}
 		total := 0
@@ -560,6 +561,25 @@ func pushHist(name string, c ctor, depth int) {
 		}
 		if total > taken {
 			kit.Failf("overtake", "q=%d: peers hold %d messages but only took %d", q, total, taken)
+		}
+		if taker != nil && taker.Alive() && q != 0 {
+			// a peer that takes everything is connected: whatever waited in the queue went to it, so
+			// no Send is waiting and at most one message per stalled peer is still on its way
+			stalled := 0
+			for _, p := range pipes {
+				if p != taker && p.Alive() {
+					stalled++
+				}
+			}
+			for _, cl := range calls {
+				if !cl.Done() {
+					kit.Failf("send-stuck-beside-idle-peer", "q=%d: %s is still waiting although a peer that takes everything is connected (the other %d peer(s) are stalled)", q, cl.Name, stalled)
+				}
+			}
+			if !lost && len(sent)-total > stalled {
+				kit.Failf("queued-beside-idle-peer", "q=%d: %d message(s) accepted by Send, %d delivered, %d stalled peer(s) can hold one each - the rest waits in the queue although a peer that takes everything is connected", q, len(sent), total, stalled)
+			}
+			kit.Count("idle-newcomer-served")
 		}
 		// (which peer a message is committed to is the load balancer's choice, so "peer X asked and
 		// got nothing" is not an error while the message waits on peer Y; completeness is checked by
@@ -598,6 +618,13 @@ func pushHist(name string, c ctor, depth int) {
 		}
 		if len(pipes) < 3 {
 			evs = append(evs, kit.Event{Name: "connect", Run: func() { pipes = append(pipes, ep.Connect()) }})
+			// a newcomer that takes whatever it is given, while the others stay as they are
+			evs = append(evs, kit.Event{Name: "connect-taking", Run: func() {
+				taker = ep.Connect()
+				taker.Hold(false)
+				pipes = append(pipes, taker)
+				taken += 1000
+			}})
 		}
 		return evs
 	}
